@@ -2155,6 +2155,23 @@ def rule_instantiate_type_by_evaluation(ctx, rep: Report, rid="S14", part="subst
     if part == "substitution":
         rep.add(rid, "instantiate_type:sample type expressions come out with every parameter replaced and nothing else touched (T := gtsam::Pose3, U := double)", not diffs,
                 f"{diffs[:3]}: the instantiated declaration names a type that does not exist, or another type than the template says", loc)
+        # a class of another namespace that merely has a parameter's spelling as its own name (other::T) is not a use of the parameter
+        foreign = []
+        try:
+            for label, mk, want in (("const other::T&", lambda: ty(tn("T", ["other"]), const="const", ref="&"), "const other::T&"),
+                                    ("std::vector<other::T>", lambda: ty(tn("vector", ["std"], [tn("T", ["other"])])), "std::vector<other::T>"),
+                                    ("other::inner::U*", lambda: ty(tn("U", ["other", "inner"]), sp="*"), "std::shared_ptr<other::inner::U>")):
+                env = {"ctype": mk(), "template_typenames": ["T", "U"], "instantiations": [P3[1](), D[1]()], "cpp_typename": tn("Foo", ["ns"], [P3[1](), D[1]()])}
+                for p_, d_ in zip(ps[len(ps) - len(fn.args.defaults):], fn.args.defaults):
+                    env.setdefault(p_, ast.literal_eval(d_))
+                res = mini_exec(fn, env, budget=80000, functions=dict(mi.functions), classes=classes)
+                got = spell(res) if isinstance(res, SampleObj) else None
+                if (got or "").replace(" ", "") != want.replace(" ", ""):
+                    foreign.append(f"`{label}` comes out as `{got}`")
+            rep.add(rid, "instantiate_type:a type of another namespace that is merely named like a parameter is left alone", not foreign,
+                    f"{foreign}: `other::T` names the class T of namespace other, not the template parameter - the instantiated declaration names a type that does not exist", loc)
+        except (_PathEval.Unknown, _Raised, TypeError, KeyError, AttributeError, IndexError):
+            pass
     else:
         rep.add(rid, "instantiate_type:the type expression handed in is left as it was", not impure,
                 f"{impure[:2]}: the next instantiation of the same template starts from a declaration the first one has rewritten", loc)
